@@ -26,7 +26,7 @@ for f in ('patch.diff', 'demo.diff'):
     shutil.copy(os.path.join(seed, f), os.path.join(out, f))
 if os.path.exists(os.path.join(seed, 'README.md')):
     shutil.copy(os.path.join(seed, 'README.md'), os.path.join(out, 'NOTES.md'))
-sh('git checkout -- . && git clean -fdq -e SEED -e target -e Cargo.lock -e TASK.md')
+sh('git reset -q --hard HEAD && git clean -fdq -e SEED -e target -e Cargo.lock -e TASK.md')
 meta = {'property': prop, 'label': label, 'demo_cmd': ' '.join(demo), 'confirmed_at': time.strftime('%Y-%m-%d %H:%M:%S')}
 r = sh('git apply SEED/demo.diff')
 meta['demo_applies'] = r.returncode == 0
@@ -39,7 +39,7 @@ meta['demo_fails_with_change'] = r.returncode != 0
 m = re.findall(r'test result: (\w+)\. (\d+) passed; (\d+) failed', r.stdout)
 meta['demo_with_change_summary'] = m[-3:]
 # compile check of all targets + pinned tests with the change (demo removed first so only the change is judged)
-sh('git checkout -- . && git clean -fdq -e SEED -e target -e Cargo.lock -e TASK.md && git apply SEED/patch.diff')
+sh('git reset -q --hard HEAD && git clean -fdq -e SEED -e target -e Cargo.lock -e TASK.md && git apply SEED/patch.diff')
 r = sh('cargo check --offline -p scylla -p scylla-cql -p scylla-cql-core -p scylla-macros --all-targets')
 meta['compiles_with_change'] = r.returncode == 0
 r = sh('cargo nextest run -p scylla -p scylla-cql -p scylla-cql-core -p scylla-macros --lib --bins --no-fail-fast --offline --test-threads 8 --status-level fail --final-status-level fail --failure-output never 2>&1 | grep -E "^\\s+(FAIL|TIMEOUT|SIGABRT|SIGSEGV|LEAK)" | sort -u')
@@ -56,6 +56,6 @@ meta['existing_tests_still_pass'] = not bad and meta['compiles_with_change']
 meta['what_i_ran'] = ['git apply demo.diff; ' + ' '.join(demo) + ' (expect pass)', 'git apply patch.diff; same (expect fail)',
                       'cargo check --all-targets with patch only', 'cargo nextest --lib for the 4 driver crates with patch only, failures intersected with BASELINE.stable_pass']
 meta['confirmed'] = all([meta['demo_applies'], meta['demo_passes_without_change'], meta['patch_applies'], meta['demo_fails_with_change'], meta['existing_tests_still_pass']])
-sh('git checkout -- . && git clean -fdq -e SEED -e target -e Cargo.lock -e TASK.md')
+sh('git reset -q --hard HEAD && git clean -fdq -e SEED -e target -e Cargo.lock -e TASK.md')
 json.dump(meta, open(os.path.join(out, 'meta.json'), 'w'), indent=1)
 print(json.dumps(meta, indent=1))
